@@ -374,13 +374,19 @@ func genC03(seed int64, tier string, out *Writer) {
 			extra += ":"
 		}
 		s := e + strconv.Itoa(r.Intn(10)) + randPart(r, 16, extra) + rev
-		switch r.Intn(6) {
+		switch r.Intn(8) {
 		case 0:
 			s = " " + s
 		case 1:
 			s = s + "\n"
 		case 2:
 			s = "\t " + s + "  "
+		case 3: // every kind of surrounding white space: CR LF of a DOS file, VT, FF
+			ws := []string{"\r\n", "\r", "\v", "\f", " \r\n", "\n\r", "\t\v"}
+			s = s + ws[r.Intn(len(ws))]
+		case 4:
+			ws := []string{"\r", "\v", "\f", "\r\n\t", "\f "}
+			s = ws[r.Intn(len(ws))] + s + ws[r.Intn(len(ws))]
 		}
 		out.Put(J{"k": "parse", "s": B(s)})
 		// ... and near-miss edits of it
